@@ -149,6 +149,16 @@ func vfLocalFree(m Mutex) bool {
 	return true
 }
 
+// vfTimeoutLike: the acquisition failed because time ran out (client deadline or the etcd server's
+// own request timeout).
+func vfTimeoutLike(err error) bool {
+	if err == context.DeadlineExceeded {
+		return true
+	}
+	t := err.Error()
+	return strings.Contains(t, "deadline") || strings.Contains(t, "timed out") || strings.Contains(t, "timeout")
+}
+
 type vfLockResult struct {
 	err  error
 	done bool
@@ -211,9 +221,15 @@ func TestVerifC18Mutex(t *testing.T) {
 
 		var holders int32
 		// ------------------------------------------------------------------ part 1
-		{
+		// part1 reports whether the case is to be abandoned (a violation listed as known was hit)
+		part1 := func() (abandon bool) {
 			hm, cm := newMutex(c.Holder), newMutex(c.Contender)
 			if r := vfLockWithin(hm, 60*time.Second); !r.done || r.err != nil {
+				if r.done && vfTimeoutLike(r.err) {
+					// overloaded machine: the holder itself timed out; nothing to probe in this case
+					vf.Class("part1-skipped-holder-timed-out")
+					return false
+				}
 				rt.Fatalf("VF-INCONCLUSIVE uncontended Lock() did not succeed: done=%v err=%v", r.done, r.err)
 			}
 			atomic.AddInt32(&holders, 1)
@@ -227,7 +243,7 @@ func TestVerifC18Mutex(t *testing.T) {
 			if r.err == nil {
 				vf.Violation(rt, "two-holders-across-members", "m%d holds %s, yet Lock() of m%d (timeout %dus) returned nil after %v\n%s",
 					c.Holder, name, c.Contender, c.ProbeTimeoutUs, el, c)
-				return
+				return true
 			}
 			vf.Class("part1-failed-acquisition")
 			if c.ProbeTimeoutUs < 10000 {
@@ -237,7 +253,7 @@ func TestVerifC18Mutex(t *testing.T) {
 			if !vfLocalFree(cm) {
 				vf.Violation(rt, "local-lock-held-after-failed-Lock", "Lock() of m%d failed (%v) but its Mutex object stays locked for the member's other goroutines\n%s",
 					c.Contender, r.err, c)
-				return
+				return true
 			}
 			keys, err := vfLockKeys(raw, name)
 			if err != nil {
@@ -250,7 +266,7 @@ func TestVerifC18Mutex(t *testing.T) {
 						c.Holder, name, c.Contender, c.ProbeTimeoutUs, r.err, el, k, c.Holder, c.Contender, keys, c) {
 						atomic.AddInt32(&holders, -1)
 						hm.Unlock()
-						return
+						return true
 					}
 				}
 			}
@@ -267,7 +283,7 @@ func TestVerifC18Mutex(t *testing.T) {
 			}
 			if len(keys) != 0 {
 				vf.Violation(rt, "lock-key-left-after-Unlock", "Unlock() of m%d returned nil but etcd still holds %v\n%s", c.Holder, keys, c)
-				return
+				return true
 			}
 			// ... and the contender can acquire now
 			cm.(*mutex).timeout = 30 * time.Second
@@ -281,6 +297,10 @@ func TestVerifC18Mutex(t *testing.T) {
 			if err := cm.Unlock(); err != nil {
 				rt.Fatalf("VF-INCONCLUSIVE Unlock() failed: %v", err)
 			}
+			return false
+		}
+		if part1() {
+			return
 		}
 
 		// ------------------------------------------------------------------ part 2
@@ -331,14 +351,17 @@ func TestVerifC18Mutex(t *testing.T) {
 						mu.Lock()
 						failedBy[sc.Member]++
 						mu.Unlock()
-						if err != context.DeadlineExceeded && !strings.Contains(err.Error(), "deadline") {
+						if !vfTimeoutLike(err) {
 							// not a timeout (e.g. "session expired" on a live session): the statement does
 							// not forbid it; remembered, reported as inconclusive at the end of the run
 							mu.Lock()
 							oddErr = err.Error()
 							mu.Unlock()
 						} else if m.(*mutex).timeout >= 5*time.Second {
-							// a generous deadline expired: something is stuck; stop the case
+							// even the 10 s deadline expired (or the etcd server itself timed the request
+							// out): the machine is overloaded or something is stuck. It is a failed
+							// acquisition like any other; the scripts are cut short to save time and the
+							// quiescence checks below decide.
 							atomic.StoreInt32(&abort, 1)
 						}
 						continue
@@ -486,11 +509,7 @@ func TestVerifC18Mutex(t *testing.T) {
 			oddCases = append(oddCases, oddErr)
 		}
 		if atomic.LoadInt32(&abort) != 0 {
-			// something was stuck without leaving a trace in the store: not a verdict; the run goes on
-			// and is reported as inconclusive at the end unless a violation shows up
-			vf.Class("ambiguous-generous-deadline-expired")
-			oddCases = append(oddCases, "a Lock() with a 10s deadline failed although nothing is left in the store")
-			return
+			vf.Class("lock-failed-under-the-10s-deadline")
 		}
 		// at quiescence every participating member can acquire
 		for _, mi := range c.Members {
